@@ -5,6 +5,7 @@
   BOOST_CLASS_EXPORT block — is computed from the statements of the file being wrapped alone.
 -/
 import WrapModel.Model.Pybind
+import WrapModel.Lemmas.PybindStateLemmas
 
 namespace WrapModel.Props.C14
 open WrapModel WrapModel.Inst WrapModel.Pybind
@@ -38,5 +39,43 @@ theorem C14_no_export_without_option (cfg : Cfg) (tpl n : String) (subs : Option
     (h : cfg.useBoost = false) :
     wrapInstantiated cfg tpl n subs im = wrapInstantiated { cfg with useBoost := false } tpl n subs im := by
   cases cfg; simp_all
+
+/-! ### Re-use of one wrapper object (`Model/PybindState.lean`)
+
+The Python object keeps `_serializing_classes` between calls; `wrap_file` appends to it while it emits the classes and
+resets it before it returns. -/
+
+/-- the object's accumulator, started empty, ends as the duplicate-free list the pure model computes from the
+    statements of the file alone -/
+theorem C14_accumulator_is_pure (stmts : List PyStmt) : accumulate [] stmts = serializingClasses stmts :=
+  accumulate_nil stmts
+
+/-- every `wrap_file` call leaves the object in the clean state, whatever state it found -/
+theorem C14_step_resets (cfg : Cfg) (tpl : String) (s : WState) (n : String) (subs : Option (List String)) (im : List IDecl) :
+    (wrapFileStep cfg tpl s n subs im).1 = {} := rfl
+
+/-- a `wrap_file` call on an object in the clean state is the pure function of (text, template, options) -/
+theorem C14_step_from_clean_state (cfg : Cfg) (tpl n : String) (subs : Option (List String)) (im : List IDecl) :
+    (wrapFileStep cfg tpl {} n subs im).2 = wrapInstantiated cfg tpl n subs im := by
+  cases subs <;> simp only [wrapFileStep, wrapInstantiated, accumulate_nil]
+
+/-- MAIN THEOREM (re-use).  For EVERY history of `wrap_file` calls on one wrapper object — any number of files, any
+    texts, with or without submodule lists — the k-th output is the output of a fresh wrapper for the k-th input:
+    nothing is carried over from the files wrapped earlier. -/
+theorem C14_reuse_history (cfg : Cfg) (tpl : String) (hist : List (String × Option (List String) × List IDecl)) :
+    runHistory cfg tpl {} hist = hist.map fun h => wrapInstantiated cfg tpl h.1 h.2.1 h.2.2 := by
+  induction hist with
+  | nil => rfl
+  | cons h r ih =>
+    obtain ⟨n, subs, im⟩ := h
+    simp only [runHistory, List.map_cons, C14_step_resets, C14_step_from_clean_state, ih]
+
+/-- what the reset is for: on an object whose accumulator is NOT empty the export block also names the stale class
+    (this is the state the theorem above shows unreachable between calls) -/
+example : accumulate ["Stale"] [PyStmt.cls "A" none "m_" "A" none [ClassItem.serialization "A"]] = ["Stale", "A"] := by decide
+
+/-- non-vacuity: two classes that both serialise, one of them twice -/
+example : accumulate [] [PyStmt.cls "A" none "m_" "A" none [ClassItem.serialization "A", ClassItem.serialization "A"],
+                         PyStmt.cls "B" none "m_" "B" none [ClassItem.serialization "B"]] = ["A", "B"] := by decide
 
 end WrapModel.Props.C14
